@@ -14,7 +14,7 @@ From ClapModel Require Import ParseProofs.Actions ParseProofs.ActionsLoop ParseP
                               ParseProofs.Unparse ParseProofs.UnparseProofs ParseProofs.UnparseTop ParseProofs.UnparseSub
                               ParseProofs.UnparseTrail ParseProofs.UnparseTree ParseProofs.UnparseIdx ParseProofs.UnparseIdxTop
                               ParseProofs.UnparseX ParseProofs.UnparseXProofs ParseProofs.UnparseXTree ParseProofs.UnparseXTrail
-                              ParseProofs.UnparseGlobals.
+                              ParseProofs.UnparseXLook ParseProofs.UnparseGlobals.
 From Coq Require Import ZArith Lia List Bool.
 From RecordUpdate Require Import RecordSet.
 Import RecordSetNotations.
@@ -26,7 +26,10 @@ Inductive invy :=
 | YSub (its : list item) (name : bytes) (j : invy)
 | YTrail (its : list item) (vs : list bytes)         (* items, [--], the values after it *)
 | YTva (its : list item) (vs : list bytes)           (* items, the run of a trailing_var_arg positional *)
-| YHyp (its : list item) (vs : list bytes).          (* items, the run of a multi-valued positional with hyphen values *)
+| YHyp (its : list item) (vs : list bytes)           (* items, the run of a multi-valued positional with hyphen values *)
+| YLook (its : list item) (init : list bytes) (vl : bytes) (its2 : list item).
+   (* items, a look-ahead run at the second-to-last positional (low-index multiple / allow_missing_positional):
+      [init] stays with it, [vl] goes to the last positional; then items that start with a flag *)
 
 Fixpoint render_invy (i : invy) : list bytes :=
   match i with
@@ -34,6 +37,7 @@ Fixpoint render_invy (i : invy) : list bytes :=
   | YSub its name j => render its ++ name :: render_invy j
   | YTrail its vs => render its ++ ESC :: vs
   | YTva its vs | YHyp its vs => render its ++ vs
+  | YLook its init vl its2 => render its ++ init ++ vl :: render its2
   end.
 (** the occurrences of the root level of a tree *)
 Definition invy_occs (c : cmd) (i : invy) : list occ :=
@@ -41,6 +45,8 @@ Definition invy_occs (c : cmd) (i : invy) : list occ :=
   | YLeaf its | YSub its _ _ => occs c 1 its
   | YTrail its vs | YTva its vs => occs c 1 its ++ trailx_occs c (items_pos c 1 its) vs
   | YHyp its vs => occs c 1 its ++ item_occs c (items_pos c 1 its) (ItPos vs)
+  | YLook its init vl its2 =>
+      occs c 1 its ++ look_occs c (items_pos c 1 its) init vl ++ occs c (items_pos c 1 its + 2) its2
   end.
 
 Fixpoint wfy_inv (c : cmd) (i : invy) : bool :=
@@ -68,6 +74,10 @@ Fixpoint wfy_inv (c : cmd) (i : invy) : bool :=
   | YHyp its vs =>
       wfx_items c PSValuesDone 1 its && is_done (items_pst c PSValuesDone 1 its)
       && wfx_hyp c (items_pos c 1 its) vs
+  | YLook its init vl its2 =>
+      wfx_items c PSValuesDone 1 its && is_done (items_pst c PSValuesDone 1 its)
+      && wfx_look c (items_pos c 1 its) init vl (render its2)
+      && wfx_items c PSValuesDone (items_pos c 1 its + 2) its2
   end.
 
 Fixpoint run_invy (c : cmd) (i : invy) : res ps :=
@@ -90,6 +100,9 @@ Fixpoint run_invy (c : cmd) (i : invy) : res ps :=
       do st1 <- react_all c (occs c 1 its ++ trailx_occs c (items_pos c 1 its) vs) ps_new; post_loop c st1
   | YHyp its vs =>
       do st1 <- react_all c (occs c 1 its ++ item_occs c (items_pos c 1 its) (ItPos vs)) ps_new; post_loop c st1
+  | YLook its init vl its2 =>
+      do st1 <- react_all c (occs c 1 its ++ look_occs c (items_pos c 1 its) init vl ++ occs c (items_pos c 1 its + 2) its2) ps_new;
+      post_loop c st1
   end.
 
 Lemma wfy_inv_parts c i : wfy_inv c i = true ->
@@ -113,9 +126,13 @@ Lemma wfy_inv_parts c i : wfy_inv c i = true ->
   | YHyp its vs =>
       wfx_items c PSValuesDone 1 its = true /\ items_pst c PSValuesDone 1 its = PSValuesDone /\
       wfx_hyp c (items_pos c 1 its) vs = true
+  | YLook its init vl its2 =>
+      wfx_items c PSValuesDone 1 its = true /\ items_pst c PSValuesDone 1 its = PSValuesDone /\
+      wfx_look c (items_pos c 1 its) init vl (render its2) = true /\
+      wfx_items c PSValuesDone (items_pos c 1 its + 2) its2 = true
   end.
 Proof.
-  intros H. destruct i as [its|its name j|its vs|its vs|its vs]; cbn [wfy_inv] in H.
+  intros H. destruct i as [its|its name j|its vs|its vs|its vs|its init vl its2]; cbn [wfy_inv] in H.
   - apply andb_prop in H. destruct H as [H H3]. apply andb_prop in H. destruct H as [H1 H2].
     split; [exact H1|]. split; [destruct (is_set s_ignore_errors c); [discriminate|reflexivity]|exact H3].
   - apply andb_prop in H. destruct H as [H H3]. apply andb_prop in H. destruct H as [H1 H2].
@@ -147,6 +164,10 @@ Proof.
     split; [exact H1|]. split; [destruct (is_set s_ignore_errors c); [discriminate|reflexivity]|].
     apply andb_prop in H3. destruct H3 as [H3 H8]. apply andb_prop in H3. destruct H3 as [H4 H5].
     split; [exact H4|]. split; [destruct (items_pst c PSValuesDone 1 its); try discriminate; reflexivity|exact H8].
+  - apply andb_prop in H. destruct H as [H H3]. apply andb_prop in H. destruct H as [H1 H2].
+    split; [exact H1|]. split; [destruct (is_set s_ignore_errors c); [discriminate|reflexivity]|].
+    apply andb_prop in H3. destruct H3 as [H3 H8]. apply andb_prop in H3. destruct H3 as [H3 H7]. apply andb_prop in H3. destruct H3 as [H4 H5].
+    split; [exact H4|]. split; [destruct (items_pst c PSValuesDone 1 its); try discriminate; reflexivity|]. split; [exact H7|exact H8].
 Qed.
 
 (** a level that ends in a tail: items, then a loop that is [trailx_apply] *)
@@ -180,11 +201,19 @@ Proof.
   + rewrite rbind_assoc. rewrite <- FT. reflexivity.
 Qed.
 
+Lemma apply_items_fs c : forall its p st st', apply_items c p its st = ROk st' -> fs_skip st' = fs_skip st.
+Proof.
+  induction its as [|it l IH]; intros p st st' E; cbn [apply_items] in E.
+  - inversion E; subst; reflexivity.
+  - destruct (apply_item c p it st) as [s1|e s|n] eqn:E0; cbn [rbind] in E; try discriminate.
+    rewrite (IH _ _ _ E). apply (apply_item_fs c _ _ _ _ E0).
+Qed.
+
 (** THE UN-PARSER THEOREM for one command tree, lifted class with tails *)
 Theorem gmw_inv_y : forall i c f, valid_tree (S f) c = true -> wfy_inv c i = true ->
   get_matches_with (S f) c (render_invy i) ps_new = run_invy c i.
 Proof.
-  induction i as [its|its name j IH|its vs|its vs|its vs]; intros c f Hv Hw; destruct (wfy_inv_parts c _ Hw) as [Hx [Hie H]].
+  induction i as [its|its name j IH|its vs|its vs|its vs|its init vl its2]; intros c f Hv Hw; destruct (wfy_inv_parts c _ Hw) as [Hx [Hie H]].
   - cbn [render_invy run_invy]. apply gmw_items_x; assumption.
   - destruct H as [Hwi [Hpst [Hneg [scn [sc0 [scb [Hps [Hh [Hfs [Hb [Hch Hwj]]]]]]]]]]].
     pose proof (valid_tree_child f c scn sc0 scb Hv Hfs Hb) as Hvc.
@@ -229,6 +258,39 @@ Proof.
     pose proof (apply_items_inv_x c Hx its PSValuesDone 1 ps_new st' Hwi Hi0 Ea) as Hpi. rewrite Hpst in Hpi.
     rewrite (loop_hyp c Hx vs _ _ st' Hwh Hpi). cbn [apply_item]. rewrite Hg. rewrite rbind_assoc.
     destruct (sep_step c IIndex a vs st') as [s1|e s|n]; cbn [rbind]; [reflexivity|rewrite Hie; reflexivity|reflexivity].
+  - destruct H as [Hwi [Hpst [Hwl Hw2]]]. cbn [render_invy run_invy].
+    set (pos := items_pos c 1 its) in *.
+    destruct (wfx_look_parts c pos init vl (render its2) Hwl) as
+      [a [a' [b [HL [Hga [Hla [Hgb [Hh' [Hn' [Hlast [Htva [Hmm [Hk [Hlb [Htb [Hmb [Htm [Hinit [Hvl Hgo]]]]]]]]]]]]]]]]]]].
+    rewrite get_matches_with_unfold. unfold cmdline_phase.
+    pose proof (pend_inv_none c PSValuesDone ps_new eq_refl) as Hi0.
+    rewrite (loop_items_x c Hx its (init ++ vl :: render its2) PSValuesDone 1 false ps_new Hwi I Hi0 eq_refl).
+    fold pos. rewrite Hpst. rewrite rbind_assoc.
+    (* the meaning, flushed *)
+    assert (FL : (do st' <- apply_items c 1 its ps_new; do s1 <- look_apply c pos init vl st';
+                  do s2 <- apply_items c (pos + 2) its2 s1; do s3 <- resolve_pending c s2; post_loop c s3) =
+                 (do st1 <- react_all c (occs c 1 its ++ look_occs c pos init vl ++ occs c (pos + 2) its2) ps_new; post_loop c st1)).
+    { etransitivity; [apply rbind_ext; intros st' _; apply rbind_ext; intros s1 _;
+                      apply (flush_items_K c Hx its2 PSValuesDone (pos + 2) s1 (post_loop c) Hw2)|].
+      etransitivity; [apply rbind_ext; intros st' _;
+                      apply (flush_look c Hx pos init vl st' (fun t => do s3 <- react_all c (occs c (pos + 2) its2) t; post_loop c s3) a b Hga Hgb)|].
+      etransitivity; [apply (flush_items_K c Hx its PSValuesDone 1 ps_new
+                               (fun t => do s <- react_all c (look_occs c pos init vl) t; do s3 <- react_all c (occs c (pos + 2) its2) s; post_loop c s3) Hwi)|].
+      cbn [resolve_pending ps_new mt matcher_new mt_pending rbind]. change (mkPs matcher_new 0 None 0) with ps_new.
+      cbv beta. symmetry. rewrite react_all_app, rbind_assoc. apply rbind_ext. intros u _.
+      rewrite react_all_app, rbind_assoc. reflexivity. }
+    rewrite <- FL. clear FL.
+    destruct (apply_items c 1 its ps_new) as [st'|e s|n] eqn:Ea; cbn [rbind]; [|rewrite Hie; reflexivity|reflexivity].
+    pose proof (apply_items_inv_x c Hx its PSValuesDone 1 ps_new st' Hwi Hi0 Ea) as Hpi. fold pos in Hpi. rewrite Hpst in Hpi.
+    assert (Hs' : fs_skip st' = 0) by (rewrite (apply_items_fs c its 1 ps_new st' Ea); reflexivity).
+    rewrite (loop_look c Hx pos a a' b HL Hga Hla Hgb Hh' Hn' Hlast Htva Hmm Hlb Htb Hmb init vl (render its2) _ st' Hk Hinit Hvl Hgo Htm Hpi).
+    rewrite rbind_assoc.
+    destruct (look_apply c pos init vl st') as [s1|e s|n] eqn:El; cbn [rbind]; [|rewrite Hie; reflexivity|reflexivity].
+    destruct (look_apply_after c Hx pos init vl st' s1 a b Hga Hgb Hmb Hs' El) as [Hi1 Hs1].
+    rewrite <- (app_nil_r (render its2)).
+    rewrite (loop_items_x c Hx its2 [] PSValuesDone (pos + 2) true s1 Hw2 I Hi1 Hs1).
+    cbn [parse_loop]. rewrite !rbind_assoc.
+    destruct (apply_items c (pos + 2) its2 s1) as [s2|e s|n]; cbn [rbind]; [reflexivity|rewrite Hie; reflexivity|reflexivity].
 Qed.
 
 Theorem run_invy_sub_ok c its name j scb sub_st st : convx c = true ->
@@ -252,10 +314,11 @@ Qed.
 
 Lemma invy_occs_args c i : Forall (fun o => In (o_arg o) (c_args c)) (invy_occs c i).
 Proof.
-  destruct i as [its|its name j|its vs|its vs|its vs]; cbn [invy_occs]; try apply (occs_args c its 1);
+  destruct i as [its|its name j|its vs|its vs|its vs|its init vl its2]; cbn [invy_occs]; try apply (occs_args c its 1);
     try (apply Forall_app; split; [apply (occs_args c its 1)|apply trailx_occs_args]).
-  apply Forall_app. split; [apply (occs_args c its 1)|]. cbn [item_occs].
-  destruct (get_pos c (items_pos c 1 its)) as [a|] eqn:Hg; constructor; [apply (get_pos_in c _ a Hg)|constructor].
+  - apply Forall_app. split; [apply (occs_args c its 1)|]. cbn [item_occs].
+    destruct (get_pos c (items_pos c 1 its)) as [a|] eqn:Hg; constructor; [apply (get_pos_in c _ a Hg)|constructor].
+  - apply Forall_app. split; [apply (occs_args c its 1)|]. apply Forall_app. split; [apply look_occs_args|apply occs_args].
 Qed.
 
 (** what is needed of a successful root level: the fold of [react] over its occurrences, then the
@@ -265,7 +328,10 @@ Lemma run_invy_root c i st : wfy_inv c i = true -> run_invy c i = ROk st ->
     mt_args (mt st1') = mt_args (mt st1) /\ mt_pending (mt st1') = None /\ post_loop c st1' = ROk st.
 Proof.
   intros Hw H. destruct (wfy_inv_parts c _ Hw) as [Hx [Hie Hp]].
-  destruct i as [its|its name j|its vs|its vs|its vs]; cbn [invy_occs] in *.
+  destruct i as [its|its name j|its vs|its vs|its vs|its init vl its2]; cbn [invy_occs] in *.
+  6:{ cbn [run_invy] in H.
+      destruct (react_all c _ ps_new) as [st1|e s|n] eqn:E1; cbn [rbind] in H; try discriminate.
+      exists st1, st1. split; [reflexivity|]. split; [reflexivity|]. split; [apply (react_all_pending_keep c _ _ _ E1 eq_refl)|exact H]. }
   5:{ cbn [run_invy] in H.
       destruct (react_all c (occs c 1 its ++ item_occs c (items_pos c 1 its) (ItPos vs)) ps_new) as [st1|e s|n] eqn:E1; cbn [rbind] in H; try discriminate.
       exists st1, st1. split; [reflexivity|]. split; [reflexivity|]. split; [apply (react_all_pending_keep c _ _ _ E1 eq_refl)|exact H]. }
